@@ -442,6 +442,8 @@ def variants_case(spec):
         r = runcheck.execute(sp)
         if r["status"] == "guard":
             return ("refused", [], 0)
+        if runcheck.known_dead(sp, r):
+            return ("refused", [], 0)
         if r["status"] == "crash":
             return ("crash", [{"rule": "crash", "observed": r["err"], "where": tree}], 0)
         res[tree] = r
@@ -505,6 +507,8 @@ def nested_case(spec):
     bt = rt.bt()
     r = runcheck.execute(spec)
     if r["status"] == "guard":
+        return ("refused", [], 0)
+    if runcheck.known_dead(spec, r):
         return ("refused", [], 0)
     if r["status"] == "crash":
         return ("crash", [{"rule": "crash", "observed": r["err"]}], 0)
